@@ -11,11 +11,11 @@ Definition jv_mem {A} (f : A -> jv) (m : mem A) : jv :=
 (* login records: printed file, model answer, demanded answer (for well-formed records) *)
 Definition run_utmp (fixed : bool) (rs : list urec) : jv :=
   JL [ JB (k_utmp_file rs);
-       jv_mem jv_rows (users fixed (k_utmp_file rs));
+       jv_mem jv_rows (users_gen fixed (k_utmp_file rs));
        (if forallb wf_urec rs then JC "Val" [jv_rows (spec_users rs)] else jnone) ].
 (* arbitrary file content: model answer only *)
 Definition run_utmp_raw (fixed : bool) (file : bytes) : jv :=
-  JL [ jv_mem jv_rows (users fixed file) ].
+  JL [ jv_mem jv_rows (users_gen fixed file) ].
 
 Definition jv_ment (e : ment) : jv := JL [JB (m_dev e); JB (m_dir e); JB (m_type e); JB (m_opts e)].
 Definition jv_ments (es : list ment) : jv := JL (map jv_ment es).
@@ -28,12 +28,12 @@ Definition cext_partitions (fixed : bool) (mounts : bytes) : outcome (list ment)
 Definition run_mounts (fixed all : bool) (fs : list kfs) (es : list ment) : jv :=
   JL [ JB (k_filesystems fs); JB (k_mounts es);
        jv_outcome jv_ments (cext_partitions fixed (k_mounts es));
-       jv_outcome jv_ments (disk_partitions fixed all (k_filesystems fs) (k_mounts es));
+       jv_outcome jv_ments (disk_partitions_gen fixed all (k_filesystems fs) (k_mounts es));
        (if forallb wf_fs fs && forallb wf_ment es && forallb plain_dev es
         then JC "Val" [jv_ments (spec_partitions all fs es)] else jnone) ].
 Definition run_mounts_raw (fixed all : bool) (filesystems mounts : bytes) : jv :=
   JL [ jv_outcome jv_ments (cext_partitions fixed mounts);
-       jv_outcome jv_ments (disk_partitions fixed all filesystems mounts) ].
+       jv_outcome jv_ments (disk_partitions_gen fixed all filesystems mounts) ].
 
 Definition jv_cres (r : cres) : jv :=
   match r with
@@ -43,9 +43,9 @@ Definition jv_cres (r : cres) : jv :=
   | CUB what => JC "UB" [JC what []]
   end.
 
-Definition run_entry (ep : entry) (args : list pyval) : jv := jv_cres (c_entry ep args).
+Definition run_entry (fixed : bool) (ep : entry) (args : list pyval) : jv := jv_cres (c_entry_gen fixed ep args).
 Definition run_ionice (fixed : bool) (pid ioclass value : Z) : jv :=
-  jv_cres (ionice_set fixed pid ioclass value).
+  jv_cres (ionice_set_gen fixed pid ioclass value).
 
 Definition run_flags (flags : Z) : jv := JL (map (fun s => JC s []) (net_if_flags flags)).
 Definition run_mac (data : bytes) : jv :=
@@ -53,7 +53,7 @@ Definition run_mac (data : bytes) : jv :=
 
 (* ethtool answer (speed_hi, speed, duplex) -> [duplex constant; speed] or UB *)
 Definition run_speed (fixed : bool) (speed_hi speed duplex : Z) : jv :=
-  match nic_speed fixed speed_hi speed with
+  match nic_speed_gen fixed speed_hi speed with
   | None => JC "UB" [JC "shift" []]
   | Some v => JL [jv_outcome JZ (duplex_map duplex); JZ v]
   end.
